@@ -4,10 +4,17 @@ from harness.common.rng import Rng
 from harness.common import sim
 
 PROP = "C27"
-LEAN_MODULES = ["LunaVerif.Lemmas.StreamGenSpec", "LunaVerif.Props.C27"]
+LEAN_MODULES = ["LunaVerif.Lemmas.StreamGenSpec", "LunaVerif.Props.C27",
+                "LunaVerif.Lemmas.C27AllStartsArith", "LunaVerif.Props.C27AllStarts"]
 DRIVER = "Driver/C27.lean"
 REQUIRED_THEOREMS = ["emits_slice", "first_last_flags", "valid_mask_partial_word", "done_once", "nothing_when_len_zero",
-                     "serializer_emits_slice", "validMask_eq", "onLast_eq", "step_sim", "ser_step_sim"]
+                     "serializer_emits_slice", "validMask_eq", "onLast_eq", "step_sim", "ser_step_sim",
+                     # every value of the start_position port (no 'within the data' hypothesis)
+                     "emits_all_starts", "within_data_is_slice", "beyond_len_emits_last_word",
+                     "beyond_data_not_the_slice", "unclamped_beyond_words", "first_iff", "first_last_flags_all",
+                     "valid_mask_partial_word_all", "done_once_all", "serializer_emits_all_starts",
+                     "ser_within_is_slice", "ser_beyond_emits_last", "validMask_gen", "posA_facts", "step_simA",
+                     "ser_step_simA"]
 RULE = ("cases = generator configuration (data length in {1,2,3,4,5,8,17,64}(+more thorough), word width 8/16/32 bits, "
         "little/big endian, max_length port (the class does not elaborate without one), 1-bit or per-byte valid; USB descriptor flavour) or serializer "
         "configuration (data_length 1..8, with/without max_length) x request script: every start position, max_length "
@@ -18,12 +25,14 @@ RULE = ("cases = generator configuration (data length in {1,2,3,4,5,8,17,64}(+mo
         "of 2**mlw + 2*wb + 3 bytes (longer than the port can count), start positions 0, 1, random, max_length swept over the "
         "top 2*wb+1 values of its range (2**mlw-1 downwards, where bytes_sent + bytes_per_word reaches 2**mlw) and the rest of "
         "the range (complete for mlw <= 4, sampled above), in-domain scripts judged by the monitor")
-ASSUMPTIONS = ["start position within the data (in words) and held stable while streaming (first is computed from the live input)",
+ASSUMPTIONS = ["start_position held stable while streaming (first is computed from the live input); emits_all_starts / "
+               "serializer_emits_all_starts put NO restriction on the requested start position (emits_slice: within the data, in words)",
+               "out-of-range ROM addresses (start_position between the word count and the byte length, multi-byte words) read 0, "
+               "as in the Amaranth simulator",
                "serializer: data[], max_length held stable while streaming (they are not latched)",
                "bytes-like constant data, word width 1, 2 or 4 bytes, valid width 1 or one bit per byte"]
 PARTIAL = ("ConstantStreamGenerator without max_length_width cannot be elaborated at all (AttributeError: bytes_sent is a "
-           "Python int) and is therefore outside model and theorems; start positions beyond the data (clamp / truncation "
-           "of start_position, DESIGN F6) are modelled and co-simulated but the theorems assume a start position within the data")
+           "Python int) and is therefore outside model and theorems")
 
 LENS = [1, 2, 3, 4, 5, 8, 17, 64]
 
